@@ -40,6 +40,7 @@ func c10Bases(seed int64, thorough bool) []*e2eCase {
 	}
 	other := []e2eNode{{Rel: "keepme.txt", Size: 100}, {Rel: "olddir/x", Size: 10}}
 	mk(true, false, 4, false, false, []int64{3000, 12000}, nil)
+	res[len(res)-1].Opts.Progress = true // with the progress display and its goroutine
 	mk(false, true, 4, false, false, []int64{12000, 500}, other)
 	mk(true, true, 4, true, false, []int64{9000, 100}, other)   // archive stream
 	mk(false, false, 4, true, true, []int64{5000, 7000}, other) // directory, overwrite
@@ -94,8 +95,13 @@ func c10Stop(d *vCtx) error {
 			w := layouts[bi]
 			for g := range w {
 				for _, ph := range []string{"before", "after"} {
-					jobs = append(jobs, job{bi, e2eStop{G: g, Phase: ph, Role: "C", Delete: false}})
-					jobs = append(jobs, job{bi, e2eStop{G: g, Phase: ph, Role: "C", Delete: true}})
+					// every other client stop the way a user makes it: Ctrl-C pauses, the choice comes later
+					pm := 0
+					if (g+len(ph))%2 == 0 {
+						pm = 120
+					}
+					jobs = append(jobs, job{bi, e2eStop{G: g, Phase: ph, Role: "C", Delete: false, PromptMs: pm}})
+					jobs = append(jobs, job{bi, e2eStop{G: g, Phase: ph, Role: "C", Delete: true, PromptMs: 120 - pm}})
 					jobs = append(jobs, job{bi, e2eStop{G: g, Phase: ph, Role: "V", Delete: false}})
 				}
 			}
